@@ -33,7 +33,7 @@ def good_stream(rng, nclients=None):
     streams = []
     ids = []
     for k in range(n):
-        cid = rng.choice([k + 1, 500 + k, 70000 + k])
+        cid = rng.choice([k + 1, 500 + k, 70000 + k]) if (k or rng.random() < 0.7) else 0
         ids.append(cid)
         streams.append((cid, rng.choice(gen.IPS4 + gen.IPS6), rng.choice([0, 1024, 65535])))
     order = []
@@ -283,6 +283,10 @@ def _stream_worker(a):
                         # a reply for a tag and service of the good stream whose text is neither a verdict nor a challenge
                         sv_, tg_ = rng.choice(live)
                         mixed.append(("-1 X %s %s :%s" % (sv_, tg_, rng.choice(["NO", "AGAIN", "MORE", "NOPE", "NOTICE hello", "OKAY x", "ok a", "no x", "O", "N", "MOREOVER y", "AGAINST z", ""]))).encode())
+                    elif c < 0.175:
+                        # a line for an id no client has: a live id plus or minus 2^32, or a number no integer type holds
+                        far = rng.choice([(1 << 32) + rng.choice(ids), rng.choice(ids) - (1 << 32), (1 << 33) + rng.choice(ids), 99999999999999999999999, -99999999999999999999999])
+                        mixed.append(("%d %s" % (far, rng.choice(["D", "T", "H", "N far.example", "u far", "P :+x far pw", "d"]))).encode())
                     elif c < 0.19:
                         # an announcement that lacks parameters, for an id of the good stream (it announces nobody)
                         mixed.append(("%d %s" % (rng.choice(ids), rng.choice(["C", "C 1.2.3.4", "C 1.2.3.4 5", "C 1.2.3.4 5 6.7.8.9", "Cfoo", "C ::1 1"]))).encode())
